@@ -32,7 +32,8 @@ PROBES = ["depth_ge_3", "empty_dir", "dir_without_cmake", "mixed_case_ext", "non
           "auto_exclude_off", "out_nested", "out_abs", "out_rel", "dotted_or_dashed_name", "patterns_present",
           "fault_fired_open_w", "fault_fired_write", "fault_fired_close_w", "fault_fired_mkdir", "fault_fired_open_r",
           "fault_run_failed", "fault_run_survived", "single_file_compared", "crash_then_rerun",
-          "crash_left_torn_or_partial_page"]
+          "crash_left_torn_or_partial_page", "rerun_over_stale_tree",
+          "persistent_fault", "probe_scandir_fault"]
 
 SAFE_LOC = ["w1", "site", "work", "ci", "checkout"]
 PREFIXES = ["pfx", "My.Pkg", "top-level", "p"]
@@ -63,14 +64,21 @@ FAULT_KINDS = [("open_w", "ENOSPC"), ("open_w", "EACCES"), ("write", "ENOSPC"), 
                ("open_w", "CRASH"), ("write", "CRASH"), ("close_w", "CRASH"), ("mkdir", "CRASH")]
 
 
-def draw_faults(draw):
+def draw_faults(draw, probe_dirs=()):
     n = draw(st.integers(1, 2))
     out = []
     for _ in range(n):
-        seam, err = draw(st.sampled_from(FAULT_KINDS))
+        seam, err = draw(st.sampled_from(FAULT_KINDS + ([("scandir", "EIO"), ("scandir", "EMFILE")] if probe_dirs else [])))
+        if seam == "scandir":
+            # the auto-exclusion probe of one subdirectory fails (its first listing); os.walk's own listings are not
+            # touched: what an unlistable directory means for the walk itself is not stated by any property
+            out.append({"seam": "scandir", "errno": err, "path": draw(st.sampled_from(list(probe_dirs)))})
+            continue
         f = {"seam": seam, "errno": err, "nth": draw(st.integers(1, 6))}
         if seam == "write":
             f["how"] = draw(st.sampled_from(["before", "torn"]))
+        if seam in ("open_w", "write") and err in ("ENOSPC", "EIO") and draw(st.booleans()):
+            f["persist"] = True         # the disk stays full / broken: every later attempt fails as well
         out.append(f)
     return out
 
@@ -115,8 +123,8 @@ def world_strategy(cfg, out_kinds=("sibling", "sibling", "abs", "nested", "rel_u
             if draw(st.booleans()):
                 rst["file_extensions_in_modules"] = draw(st.booleans())
         variants = []
-        cwds = sorted({"", site.rel, "elsewhere"})
         dirs = sorted(refs.tree_dirs(site.tree))
+        cwds = sorted({"", site.rel, "elsewhere"} | {posixpath.join(site.proj, d) for d in dirs[:4]})
         for vi in range(cfg["variants"]):
             key, explicit = gen.listing_schedule(draw, dirs[:3], site.tree, prefix=site.proj)
             cwd = draw(st.sampled_from(cwds))
@@ -126,7 +134,8 @@ def world_strategy(cfg, out_kinds=("sibling", "sibling", "abs", "nested", "rel_u
                  "listing_key": key, "listing_explicit": explicit,
                  "prefix_src": draw(st.integers(0, 2)), "faults": []}
             if cfg.get("faults") and vi > 0:
-                v["faults"] = draw_faults(draw)
+                probe = [posixpath.join(site.proj, d) for d in dirs if d and "/" not in d] if auto else []
+                v["faults"] = draw_faults(draw, probe)
             variants.append(v)
         return {"files": files, "proj": site.proj, "out": out, "out_kind": out_kind, "patterns": pats,
                 "recursive": recursive, "auto_exclude": auto, "prefix": prefix, "rst": rst, "variants": variants,
@@ -264,7 +273,11 @@ def evaluate(spec, ctx):
             for f in var.get("faults", []):
                 ctx.faults_planned[f["seam"] + ":" + f["errno"]] += 1
             for f in res.fired:
-                ctx.probes["fault_fired_" + f["seam"]] += 1
+                ctx.probes["fault_fired_" + f["seam"]] += 1 if f["seam"] != "scandir" else 0
+                if f.get("persist"):
+                    ctx.probes["persistent_fault"] += 1
+                if f["seam"] == "scandir":
+                    ctx.probes["probe_scandir_fault"] += 1
             got = created_under(res, out)
             pages = core.read_tree(base, out)
             ctx.note_case(core.spec_digest([tree, spec["patterns"], spec["recursive"], spec["auto_exclude"],
@@ -339,6 +352,34 @@ def evaluate(spec, ctx):
                                           kind="under-faults"))
             if viols:
                 break
+        # --- an output directory left behind by an earlier run: every page torn or carrying a longer old text, all
+        #     with timestamps in the future (clock skew); a plain re-run must restore exactly the fault-free tree
+        if not viols and ref_pages and spec["out_kind"] != "nested":
+            var0 = spec["variants"][0]
+            import time as _time
+            future = _time.time() + 86400 * 365
+            for k, text in ref_pages.items():
+                pth = os.path.join(base, spec["out"], k)
+                os.makedirs(os.path.dirname(pth), exist_ok=True)
+                with open(pth, "w") as f:
+                    f.write(text[: len(text) // 2] if (len(k) + len(text)) % 2 else text + "\nSTALE TAIL OF AN OLDER, LONGER PAGE\n" * 3)
+                os.utime(pth, (future, future))
+            overlay, argv = variant_setup(spec, var0)
+            core.materialise(base, {k: v.replace("{BASE}", base) for k, v in overlay.items()})
+            r3 = core.run_call(base, {"cwd": var0["cwd"], "argv": argv, "listing_key": var0["listing_key"],
+                                      "listing_explicit": var0["listing_explicit"]})
+            ctx.note_call(r3)
+            ctx.probes["rerun_over_stale_tree"] += 1
+            pages3 = core.read_tree(base, spec["out"])
+            if r3.status != 0:
+                viols.append(viol("rerun-over-stale-tree-failed", f"status {r3.status} exc {r3.exc}"))
+            else:
+                diff = sorted(k for k in ref_pages if pages3.get(k) != ref_pages[k])
+                if diff:
+                    how = "kept its stale content" if pages3.get(diff[0]) not in (None, ref_pages[diff[0]]) else "missing"
+                    viols.append(viol("stale-output-survives-rerun",
+                                      f"re-run over an output directory holding torn / longer / newer-stamped pages: "
+                                      f"{diff[:5]} differ from the fault-free tree ({how})"))
         # --- page content == single-file rendering (apart from title / module name)
         if not viols and spec.get("single") and ref_pages is not None:
             var0 = spec["variants"][0]
